@@ -95,3 +95,16 @@ PROPS['C11'] = dict(
     level_note='Trusted: the validity predicates in h_valid.cpp (DESIGN 6.4). A valid interpolation call whose system is singular counts as accepted (solvability is C12).',
     assumptions=[SAN, 'Armadillo is not installed: interpolateUsingArmadillo is not exercised'],
 )
+
+PROPS['C08'] = dict(
+    units=[dict(target=T('h_grids', parts=2), quick=dict(scale=4.0), thorough=dict(scale=5.0, shards=16))],
+    rule=('base grid g and a mutation g\' from {one point moved, extra point in front / at the back / inside, first / last point dropped, point moved OUTSIDE the hull of both windows (grids agree where the supports meet), equal grid in a distinct object} '
+          'x constructed placement class incl. interval-free arguments x orders (0..2)^2 x 16 entry points: a+b, a-b, a*b, a+=b, a-=b, linearCombination (foreign spline at a generated position of 2..5, both overloads), BilinearForm identity / with operators / operator(), '
+          'integrate<3> (double), SplineOperator{v}*s, three compound expressions containing SplineOperator{v}, LinearForm{SplineOperator}, BilinearForm{SplineOperator} with operands on one grid and on different grids, BSplineGenerator(knots, g\'). '
+          'Oracle: BSplineException with DIFFERING_GRIDS (generator: any code), nothing returned, snapshots of all arguments and of the in-place target unchanged; for equal grids in distinct objects every result equals the shared-instance result. '
+          'Non-trivial: mutation outside the hull, equal-distinct object, interval-free argument, or in-place entry point. Per-entry and per-mutation counters in per_subcheck.classes.'),
+    technique='rapidcheck generation of grid-pair mutations x entry points; oracle = exception type/code, operand snapshots, shared-instance differential',
+    level_text='Generated-input search over every multi-spline entry point and every way two grids can differ; both halves (refuse different, accept equal-in-distinct-object) are checked. Sampling, not proof.',
+    level_note='For a BilinearForm with a spline factor whose operands share no interval neither a throw nor a value is demanded (guard unreachable, DESIGN 6.2). Q and double.',
+    assumptions=[EXACT, SAN],
+)
